@@ -7,12 +7,13 @@ Thorough == Quick
             \cup Levels({{}, Lv4, {"root"}, {"a.A1"}, {"a"}, {"a.A1.1"}, {"root", "a.A1.1"}, {"a", "a.A1"}})
             \cup CrossRef({{"a"}, {"root", "a.A1"}})
             \cup SelectW({"S1", "S2", "S3"}, {{}, {"A2"}, {"A1", "A2", "B1"}}, PerE)
-            \cup Recur(BOOLEAN, PerE)
+            \cup Recur(BOOLEAN, PerE, <<"ab">>) \cup Recur(BOOLEAN, {}, <<"abc">>) \cup Recur(BOOLEAN, {}, <<"ab", "abc">>) \cup Recur2(PerI, {"U", "T"}) \cup Recur2({}, {"T"})
             \cup FsWorlds(Bg5, SUBSET FilesOf(Bg5)) \cup FsWorlds(Bg3, SUBSET FilesOf(Bg3))
+            \cup Schema(Bg6) \cup PerFile(Bg5) \cup Levels({{}, Lv4}) \cup Fault(Bg4)
             \cup Fault(Bg5) \cup Sources(Bg5) \cup Commands(Bg5) \cup BuildTags(Bg5)
             \cup Locate(Bg3, AllModes, LY!ModDirs, {"run", "showconfig"})
             \cup {[x EXCEPT !.occ = CFiles(x), !.cfg = Over(x.cfg, CfgOf({<<"env", "force-file-write", TRUE>>}))] :
-                    x \in SelectW({"S1"}, {{}, {"A2"}}, {}) \cup Recur(BOOLEAN, {})}
+                    x \in SelectW({"S1"}, {{}, {"A2"}}, {}) \cup Recur(BOOLEAN, {}, <<"ab">>)}
             \cup {[x EXCEPT !.fp = [point |-> pt, key |-> f]] : x \in FsWorlds(Bg5, {{}, FilesOf(Bg5)}), pt \in {"stat", "write"}, f \in FilesOf(Bg5)}
 
 MCThorough == {x \in Thorough : WellFormed(x)}
